@@ -48,6 +48,29 @@ MUTANTS = [
     ("c08-no-exc-for-unbox", "C08", "rpyc/core/protocol.py",
      "        try:\n            handler, args = raw_args\n            args = self._unbox(args)",
      "        handler, args = raw_args\n        try:\n            args = self._unbox(args)"),
+    # ---- C11
+    ("c11-no-disconnect-hook", "C11", "rpyc/core/protocol.py",
+     "        self._channel.close()\n        self._local_root.on_disconnect(self)\n", "        self._channel.close()\n"),
+    ("c11-serve-eof-no-close", "C11", "rpyc/core/protocol.py",
+     "        except EOFError:\n            self.close()\n            raise\n        finally:\n            self._recvlock.release()",
+     "        except EOFError:\n            raise\n        finally:\n            self._recvlock.release()"),
+    ("c11-serve-all-no-close", "C11", "rpyc/core/protocol.py",
+     "        except EOFError:\n            pass\n        finally:\n            self.close()\n\n    def serve_threaded",
+     "        except EOFError:\n            pass\n\n    def serve_threaded"),
+    ("c11-callbacks-not-cleared", "C11", "rpyc/core/protocol.py",
+     "        self._request_callbacks.clear()\n", ""),
+    ("c11-close-eof-escapes", "C11", "rpyc/core/protocol.py",
+     "            self._async_request(consts.HANDLE_CLOSE)\n        except EOFError:\n            pass\n        except Exception:",
+     "            self._async_request(consts.HANDLE_CLOSE)\n        except Exception:"),
+    ("c11-close-not-idempotent", "C11", "rpyc/core/protocol.py",
+     "        \"\"\"closes the connection, releasing all held resources\"\"\"\n        if self._closed:\n            return\n",
+     "        \"\"\"closes the connection, releasing all held resources\"\"\"\n"),
+    ("c11-stream-oserror", "C11", "rpyc/core/stream.py",
+     "                self.close()\n                raise EOFError(ex)\n            if not buf:",
+     "                self.close()\n                raise\n            if not buf:"),
+    ("c11-write-not-closing", "C11", "rpyc/core/stream.py",
+     "        except socket.error:\n            ex = sys.exc_info()[1]\n            self.close()\n            raise EOFError(ex)\n\n\nclass TunneledSocketStream",
+     "        except socket.error:\n            ex = sys.exc_info()[1]\n            raise EOFError(ex)\n\n\nclass TunneledSocketStream"),
     # ---- C10
     ("c10-decref-le", "C10", "rpyc/lib/colls.py",
      "            if slot[1] < count:", "            if slot[1] <= count:"),
